@@ -104,6 +104,22 @@ def na_reason(txt):
     return f"not applicable to deterministic simulation with fault injection: {txt}" + (f" [{code} = {extra}]" if extra else "")
 
 
+# extensions made after the seeded rounds (DESIGN.md sections 4 "[second round]" and 15.2 / 15.3)
+EXTRA = {
+    "C65": " Later additions: deadlines (wait/as_completed/result/Executor.map/AsyncResult timeouts) run on the virtual clock and blocking queue reads drive the simulator; callables are also handed over as short-lived objects (partial / closure); argument iterables are lists, tuples or generators; equal-but-distinguishable arguments (0, 0.0, -0.0, False, ...) are compared type- and sign-strictly.",
+    "C31": " Later additions: seeds as int, list, falsy values (0) or one shared numpy SeedSequence object; batches with dynamic circuits (mid-circuit measurement, postselecting projector) under one-shot / tree-traversal; deadlines on the virtual clock.",
+    "C66": " Later additions: duplicate adds, graph constructions rejected half-way, faults that are BaseException but not Exception, local_decomps used as a decorator (re-entered; one decorator object shared by all threads), a directed leave-then-re-enter pattern.",
+    "C05": " Later additions: array-valued parameters (also > 1000 entries, sparse, large Hermitian), parameters held by torch / jax / autograd with and without backprop, observable-coefficient and control-order near-duplicates, size-one broadcasts, tapes derived with copy / qp.map_wires from fingerprinted tape objects, finite-shot siblings whose shot count continues the trainable indices, parameter sweeps through one reused buffer.",
+    "C41": " Later additions: stop_recording as a decorator on a re-entrant helper, library templates using it, function forms of wrappers (prod / adjoint / ctrl of a function), make_qscript inside a context, apply(context=...), bodies conditioned on a mid-circuit measurement.",
+    "C64": " Later additions: workload-aware fault placement (resolved by a fault-free dry run), in-place edits of list / dict attributes, containers compared by index and by iteration, molecules, nested datasets stored again and edited from the inside, dict keys with percent escapes.",
+    "C29": " Later additions: (shots, copies) specifications and non-adjacent repeats, a nine-wire case, requests routed through measurements_from_samples / _counts for Pauli words and wire measurements, and -- for the JAX generator only, where a bypassed choice seam would otherwise pass silently -- observation of the device's real draws (per-bin goodness of fit, first half vs second half; reported separately).",
+    "C21": " Later additions: tree-traversal with shots derives the per-history shot counts from the decided draws and checks every measurement-value statistic and every expval / var / probs of an ordinary observable as the function of those draws; new mode for deferred measurements with shots (postselection thinning chain decided by the simulator).",
+    "C22": " Later additions: any-state scratch scopes left dirty, restored->any->zero chains, an idle measured static wire on the device path, histories built through qp.allocate / qp.deallocate and the register's context-manager protocol, plain-string states, the same configured registers used for two applications.",
+    "C13": " Later additions: work wires requested in the zero state must end in ONE state for every history and input; wires a rule requests in \"any\" state are handed over in a random state; random QROM tables against an independently written ideal action.",
+    "C74": " Later additions: two-step route through the stand-alone diagonalize_mcms transform, measurement angles at multiples of pi/2, and the offline tracker (get_byproduct_corrections) against an independent frame propagation with byproduct formulas written out from the paper, over forced histories with wires first used in any order.",
+}
+
+
 def main():
     props = [json.loads(l)["id"] for l in open(os.path.join(HERE, "properties.jsonl"))]
     checks = []
@@ -115,7 +131,7 @@ def main():
             "evidence_file": f"/verif/evidence/{cid}.json",
             "replay_cmd_template": f"{PY} /verif/run.py {cid} --replay {{path}}",
             "engine": "simkit",
-            "level_claimed": {"category": c["category"], "text": c["text"], "design_ref": c["design"]},
+            "level_claimed": {"category": c["category"], "text": c["text"] + EXTRA.get(cid, ""), "design_ref": c["design"]},
             "level_note": c["note"],
             "technique": c["technique"],
         })
